@@ -180,7 +180,8 @@ def rig_p(chk, tier, seed):
                  "beh_weights": [70, 6, 12, 12], "timeout": 0.5,
                  "ops": ["get", "get_many", "getnext", "getbulk", "fetch", "refresh", "oversize", "get", "get_many"]}
         jobs = [{"seed": seed * 99989 + i, "steps": steps, "aspects": ASPECTS,
-                 "knobs": dict(knobs, shared_pw=("samepass%d" % i) if i % 2 else None, same_octets=0.5 if i % 4 >= 2 else 0.0)} for i in range(16)]
+                 "knobs": dict(knobs, **({"shared_pw": "samepass%d" % i, "sessions": 6, "key_types": ["password", "password", "password", "master"],
+                                          "same_octets": 0.0} if i % 2 else {"same_octets": 0.5 if i % 4 == 2 else 0.0}))} for i in range(16)]
         outs = runner.run_workers("vlib.scenario", "worker", jobs, variant=variant, timeout=3000)
         stats[variant] = c03.collect(chk, outs, variant, PID)
         chk.seen(stats[variant]["requests"])
